@@ -86,6 +86,7 @@ pub fn gen_cfg(t: &mut Tape, profile: Profile) -> RunCfg {
         p_write_zero: [0, 0, 0, 0, 0, 10, 40][t.choose(7) as usize],
         p_slow_write: 0,
         p_peer_stall: 0,
+        p_ping_flush_cancel: 0,
         zero_time_io: false,
         p_withhold_ack: [0, 50, 200, 500][t.choose(4) as usize],
         p_fail_reason: [0, 0, 50, 200][t.choose(4) as usize],
@@ -252,6 +253,7 @@ pub fn gen_cfg(t: &mut Tape, profile: Profile) -> RunCfg {
             c.delay_law = 2 + t.choose(2);
             c.p_no_pingresp = [0, 100, 400][t.choose(3) as usize];
             c.p_peer_stall = [0, 0, 150][t.choose(3) as usize];
+            c.p_ping_flush_cancel = [0, 0, 300][t.choose(3) as usize];
             c.p_withhold_ack = 0;
             c.max_conns = 1 + t.choose(3);
             c.max_steps = 20 + t.choose(120);
@@ -702,11 +704,18 @@ pub fn usability_probe(conn: &mut Conn<'_, '_>) {
             }
         });
     }
-    // inbound
+    // inbound (not at QoS 2 while the client still remembers QoS 2 exchanges of a broker session
+    // that was lost without the client seeing the CONNACK that said so: its table may be full of
+    // identifiers no PUBREL will ever release, and MQTT gives it no way to know)
     let sent = with(|w| {
         let cur = w.cur;
         let before = w.bmsgs.len();
+        let orphans = !w.client_qos2_pending.is_empty() || w.client_qos2_ambiguous;
+        if orphans {
+            w.force_inbound_qos = Some(1);
+        }
         let ok = broker::broker_publish(w, cur);
+        w.force_inbound_qos = None;
         ok && w.bmsgs.len() > before
     });
     if sent {
@@ -947,6 +956,41 @@ fn release_saturation_prefix(conn: &mut Conn<'_, '_>) {
     with(|w| w.hold_pubcomp = false);
 }
 
+/// C12/C04: the broker uses the whole Receive Maximum the client advertised for QoS 2 messages
+/// and its PUBRELs do not arrive on this connection: the client's inbound QoS 2 table is exactly
+/// full when the connection is lost.
+fn inbound_qos2_saturation_prefix(conn: &mut Conn<'_, '_>) {
+    let n = with(|w| w.client_receive_max.unwrap_or(8).min(16));
+    let opts = ExecOpts { cancellable: true, idle_cancel: true, budget_us: None, timer_is_idle: true };
+    with(|w| {
+        w.probe("inbound_qos2_saturation");
+        w.hold_pubrel = true;
+        w.force_inbound_qos = Some(2);
+    });
+    for _ in 0..n {
+        let sent = with(|w| {
+            let cur = w.cur;
+            broker::broker_publish(w, cur)
+        });
+        if !sent {
+            break;
+        }
+        for _ in 0..6 {
+            let r = do_wait(conn, Wait::Poll, Some(opts));
+            if r == Res::Cancelled || r.is_fatal() {
+                break;
+            }
+        }
+        if !conn.is_connected() {
+            break;
+        }
+    }
+    with(|w| {
+        w.hold_pubrel = false;
+        w.force_inbound_qos = None;
+    });
+}
+
 pub fn scenario_general(session: &mut Session<'_>) {
     let (max_conns, mut steps_left, burn) = with(|w| (w.cfg.max_conns, w.cfg.max_steps, w.cfg.id_burn));
     let mut drained = false;
@@ -971,7 +1015,15 @@ pub fn scenario_general(session: &mut Session<'_>) {
                 if ci == 0 && with(|w| w.cfg.profile == Profile::Quota && w.tape.chance(1, 6)) {
                     release_saturation_prefix(&mut conn);
                 }
-                let end = if !conn.is_connected() {
+                let mut lose_now = false;
+                if ci == 0 && with(|w| matches!(w.cfg.profile, Profile::Inbound | Profile::Sessions) && w.tape.chance(1, 8)) {
+                    inbound_qos2_saturation_prefix(&mut conn);
+                    // half of the time the connection is lost right now, with the table full
+                    lose_now = with(|w| w.tape.chance(1, 2));
+                }
+                let end = if lose_now && conn.is_connected() {
+                    ConnEnd::Drop
+                } else if !conn.is_connected() {
                     // the connection died inside one of the prefixes above
                     dead_handle_probe(&mut conn);
                     ConnEnd::Dead
